@@ -10,6 +10,7 @@ pub mod c09;
 pub mod c10;
 pub mod c11;
 pub mod c11net;
+pub mod c11live;
 pub mod c12;
 pub mod c13;
 pub mod c06;
